@@ -18,6 +18,7 @@ import z3
 from . import theory
 from .interp import (Frame, MergeAbort, Obligation, Path, PathInfeasible, SymRaise, _Return,
                      mk_exc)
+from . import seqs
 from .intrinsics import Intrinsics
 from .source import ClassInfo, ExtractionError, FunctionInfo, SourceIndex
 from .types import TypeParser, show
@@ -54,9 +55,12 @@ class Contract:
         self.use: list | None = g('use', None)      # restrict which contracts are used modularly (None = all)
         self.no_use: list = g('no_use', [])
         self.note: str = g('note', '')
+        self.loop_types: dict = g('loop_types', {})   # loop index -> {assigned variable: type string}
+        self.aliases: dict = g('aliases', {})         # 'a.b': 'c.d'  -- input field a.b IS the object c.d
         self.pre = ci.methods.get('pre')
         self.post = ci.methods.get('post')
         self.raises = ci.methods.get('raises')
+        self.decreases = ci.methods.get('decreases')   # termination measure (tuple), see seqs.lex_less
 
     @property
     def short(self) -> str:
@@ -99,7 +103,8 @@ class Explorer:
             if c.target:
                 self.by_target[c.target] = c
         self.invariants = invariants
-        self.types = TypeParser(index, ['fpy2.number', 'fpy2.utils', 'fpy2', 'fpy2.ast', 'fpy2.analysis'])
+        self.types = TypeParser(index, ['fpy2.number', 'fpy2.utils', 'fpy2', 'fpy2.ast', 'fpy2.analysis',
+                                        'fpy2.transform.path', 'fpy2.transform.cursor', 'fpy2.transform.error'])
         self.intrinsics = Intrinsics(self)
         self.global_cache = {}
         self.tags = Tags()
@@ -188,6 +193,8 @@ class Explorer:
                 kw[n] = bound[n]
             elif extra and n in extra:
                 kw[n] = extra[n]
+            elif n == 'self':
+                kw[n] = None        # contract of a module-level function
             else:
                 raise InterpError(f'{fn.qualname}: contract parameter {n} not among target parameters {list(bound)}')
         try:
@@ -197,6 +204,18 @@ class Explorer:
         if not isinstance(r, dict):
             raise InterpError(f'{fn.qualname} must return a dict of named clauses')
         return r
+
+    def _measure(self, P: Path, fn: FunctionInfo, bound: dict):
+        kw = {}
+        for a in fn.node.args.args:
+            n = a.arg
+            if n in bound:
+                kw[n] = bound[n]
+            elif n == 'self':
+                kw[n] = None
+            else:
+                raise InterpError(f'{fn.qualname}: measure parameter {n} not among the target parameters')
+        return P.call_function(FuncV(fn), [], kw, force_inline=True)
 
     def bind_target(self, P: Path, info: FunctionInfo, args, kwargs) -> dict:
         fr = Frame(info.module, info, info.cls)
@@ -215,6 +234,12 @@ class Explorer:
                 cond = P.truthy(cond)
                 P.oblige(f'pre@{short}[{k}]', 'pre', cond)
                 P.assume(cond, fact=True)
+        cur = self.current
+        if c.decreases is not None and cur is not None and cur.decreases is not None and getattr(P, 'bound', None):
+            # a call inside a group of (mutually) recursive contracted functions: the measure decreases
+            m_new = self._measure(P, c.decreases, bound)
+            m_old = self._measure(P, cur.decreases, P.bound)
+            P.oblige(f'decreases@{short}', 'decreases', seqs.lex_less(P, m_new, m_old))
         if c.raises is not None:
             for ename, cond in self._call_spec(P, c.raises, bound).items():
                 cond = P.truthy(cond)
@@ -378,7 +403,15 @@ class Explorer:
                 bound[p] = SObj(t[1], {}, 'self')
                 continue
             P.param_types[p] = (t, None)
+            if info is not None and info.name == '__post_init__' and p == 'self' and t[0] == 'obj':
+                # dataclass hook: the fields are set, nothing is validated yet (no class invariant)
+                bound[p] = seqs.fresh_raw_obj(P, t, p)
+                continue
             bound[p] = P.fresh(t, p)
+        for dst, src in c.aliases.items():
+            base, _, fld = dst.rpartition('.')
+            holder = self._resolve_path(P, bound, base)
+            P.write(holder.fields, fld, self._resolve_path(P, bound, src))
         P.bound = bound
         if c.pre is not None:
             for k, cond in self._call_spec(P, c.pre, bound).items():
@@ -415,6 +448,10 @@ class Explorer:
                 outcome = ('return', result)
             except SymRaise as e:
                 outcome = ('raise', e.exc.name, e.exc.bases, e.where)
+            except seqs.PathEnd:
+                # end of a loop-step path: its obligations (inv-step) are already recorded
+                res.outcome = 'loop-step'
+                return
         res.outcome = outcome[0] if outcome[0] == 'return' else f'raise {outcome[1]}'
         # --- exceptional behaviour
         rz = self._call_spec(P, c.raises, bound) if c.raises is not None else {}
@@ -466,6 +503,8 @@ class Explorer:
                             # union resolved to None / opaque: fine if forced from this lazy
                             continue
                         if isinstance(cv, tuple):
+                            continue
+                        if seqs.forced_from(cv, pv.name):
                             continue
                         P.oblige(f'{c.short}#frame[{pth}]', 'frame', False)
                         continue
@@ -571,7 +610,8 @@ class Explorer:
         status = 'none'
         for B in (bounds or self.refute_bound):
             try:
-                status, model = bounded_model(formulas, B, timeout_ms or self.refute_timeout_ms)
+                status, model = bounded_model(formulas, B, timeout_ms or self.refute_timeout_ms,
+                                              extra=seqs.len_bounds(P, B))
             except Exception as e:
                 return None, f'error: {e}'
             if model is not None:
@@ -580,6 +620,8 @@ class Explorer:
                     args = {}
                     for p_, (t, pinned) in P.param_types.items():
                         args[p_] = cz.value(pinned) if pinned is not None else cz.entry(t, p_)
+                    for dst, src in c.aliases.items():
+                        seqs.apply_alias(args, dst, src)
                     return {'args': args, 'ghost': ghost_values(model), 'bound': B}, 'sat'
                 except Exception as e:
                     return None, f'concretize-error: {type(e).__name__}: {e}'
